@@ -36,7 +36,7 @@ fi
 BASE=${VERIF_SCRATCH:-}
 if [ -z "$BASE" ]; then if [ -w /dev/shm ]; then BASE=/dev/shm; else BASE=${TMPDIR:-/tmp}; fi; fi
 S=$(mktemp -d -p "$BASE" verif-build.XXXXXX) || fail "mktemp"
-trap 'rm -rf "$S"' EXIT
+if [ -z "${VERIF_KEEP:-}" ]; then trap 'rm -rf "$S"' EXIT; else echo "simbuild: keeping $S" >&2; fi
 
 rsync -a --exclude '*_test.go' "$REPO/lib/" "$S/lib/" || fail "copy lib"
 mkdir -p "$S/bltree" && cp -r "$BLTREE/." "$S/bltree/" && chmod -R u+w "$S/bltree" || fail "copy bltree"
